@@ -188,7 +188,12 @@ static void ts_lexer_goto(Lexer *self, Length position) {
   // state - past the end of the included ranges.
   else {
     self->current_included_range_index = self->included_range_count;
+    // The text ends where the last range that includes anything ends.
     TSRange *last_included_range = &self->included_ranges[self->included_range_count - 1];
+    while (
+      last_included_range > self->included_ranges &&
+      last_included_range->end_byte == last_included_range->start_byte
+    ) last_included_range--;
     self->current_position = (Length) {
       .bytes = last_included_range->end_byte,
       .extent = last_included_range->end_point,
@@ -229,10 +234,14 @@ static void ts_lexer__do_advance(Lexer *self, bool skip) {
     }
     if (self->current_included_range_index < self->included_range_count) {
       current_range++;
-      self->current_position = (Length) {
-        current_range->start_byte,
-        current_range->start_point,
-      };
+      // Only a range that includes text moves the position; an empty range
+      // is stepped over without leaving a trace.
+      if (current_range->end_byte > current_range->start_byte) {
+        self->current_position = (Length) {
+          current_range->start_byte,
+          current_range->start_point,
+        };
+      }
     } else {
       current_range = NULL;
       break;
@@ -307,12 +316,20 @@ static void ts_lexer__mark_end(TSLexer *_self) {
       self->current_included_range_index > 0 &&
       self->current_position.bytes == current_included_range->start_byte
     ) {
+      // The token ends where the text of the preceding ranges ends: skip
+      // back over ranges that include nothing.
       TSRange *previous_included_range = current_included_range - 1;
-      self->token_end_position = (Length) {
-        previous_included_range->end_byte,
-        previous_included_range->end_point,
-      };
-      return;
+      while (
+        previous_included_range > self->included_ranges &&
+        previous_included_range->end_byte == previous_included_range->start_byte
+      ) previous_included_range--;
+      if (previous_included_range->end_byte > previous_included_range->start_byte) {
+        self->token_end_position = (Length) {
+          previous_included_range->end_byte,
+          previous_included_range->end_point,
+        };
+        return;
+      }
     }
   }
   self->token_end_position = self->current_position;
